@@ -19,7 +19,7 @@ LEVEL = "model_checking"
 EXH = {
     "quick": {
         "C04": [([1, 2], 2, 6, 2, ["add", "compactall", "reload"], False),
-                ([1, 2], 2, 6, 1, ["addition", "abort", "empty", "compactall"], False)],
+                ([1, 2], 2, 6, 1, ["addition", "abort", "compactall"], False)],
         "C05": [([1, 2, 3], 1, 6, 3, ["add", "compactrange", "compactall"], False, [1], ["reopen", "clean"])],
         "C06": [([1, 2], 2, 6, 2, ["add", "compactall"], True)],
         "C08": [([1, 2, 3], 1, 5, 2, ["add", "compactall", "clean"], False)],
@@ -150,7 +150,7 @@ def run(pid, tier):
                 with open(os.path.join(sd, "exh.cfg"), "w") as f:
                     f.write(P.proto_cfg(hs, mo, mi, n, ops, crash, readers=rd, readerops=rops))
                 r = C.tlc(sd, "StackProto", "exh.cfg", sc, workers=8 if tier == "quick" else 12,
-                          timeout=240 if tier == "quick" else 2400, heap="12g" if tier == "quick" else "24g")
+                          timeout=420 if tier == "quick" else 2400, heap="12g" if tier == "quick" else "24g")
                 r["cfg"] = dict(handles=hs, maxops=mo, maxids=mi, initn=n, opkinds=ops, crash=crash, readers=list(rd), readerops=list(rops))
                 exh.append(r)
                 shutil.rmtree(sd, ignore_errors=True)
